@@ -97,6 +97,12 @@ def run(cr: CheckRun) -> None:
     for e in c04.overlap_encodings(cr.seed):
         rid += 1
         items.append((rid, e, rnd.getrandbits(30), "long"))
+    # block lengths that need both bytes of I (what the text "MVL (n),[X++]" denotes then is I bytes, not I mod 256)
+    blk = [e for e in encs if en.opcode_of(e) in c04.BLOCK_OPS]
+    rnd2 = random.Random(cr.seed + 5)
+    for e in (rnd2.sample(blk, min(len(blk), 32)) if quick else blk[::3]):
+        rid += 1
+        items.append((rid, e, rnd.getrandbits(30), "block"))
     nsh = vlib.NCPU * 2
     results = vlib.pmap(_job, [(i, items[i::nsh]) for i in range(nsh)])
     cr.mark("executions")
